@@ -13,6 +13,7 @@ fn main() {
     match argv[1].as_str() {
         "codec" => shpverif::cmd_codec::run(&a),
         "writer" => shpverif::cmd_writer::run(&a),
+        "reader" => shpverif::cmd_reader::run(&a),
         c => {
             eprintln!("unknown command {}", c);
             std::process::exit(2);
